@@ -16,7 +16,7 @@ import re
 
 from ..facts import AnalysisBroken, short
 from ..paths import path, pstr, last_field, root_var_id, fields_in
-from ..moves import MoveAnalysis
+from ..moves import MoveAnalysis, vtag
 from .. import formula as F
 from .. import witness, extract
 from .qcommon import TUInfo
@@ -81,7 +81,7 @@ def check(ctx):
         for f in tu.fns:
             if f.outermost().skey in HETER_MOVE_FNS:
                 vs, pairs = ma.violations(f)
-                names = sorted({v['site']['name'] + ' ' + v['kind'] for v in vs})
+                names = sorted({vtag(v) for v in vs})
                 ctx.ob('C14.M', f, 'arguments are never read after (or unsequenced with) being moved from', not vs,
                        detail='\n'.join(v['msg'] for v in vs[:3]), key_detail='move ' + ','.join(names),
                        where=f.nloc(vs[0]['site']['consumer']) if vs else None)
